@@ -474,6 +474,20 @@ func GenPlan(profName string, seed uint64) *Plan {
 			c.Keys[i].Int = uint64(i*13+1) % 251
 		}
 	}
+	if c.Hasher == HashDefault && !stringKind(c.KeyKind) && g.p(120) {
+		// the ends of the key type's range: the key whose hash is 0 (the zero
+		// value of every integer kind) and the all-ones key
+		c.Keys[0].Int = 0
+		if len(c.Keys) > 2 && wideKind(c.KeyKind) && g.p(500) {
+			dup := false
+			for _, k := range c.Keys {
+				dup = dup || k.Int == math.MaxUint64
+			}
+			if !dup {
+				c.Keys[1].Int = math.MaxUint64
+			}
+		}
+	}
 	c.NumCounters = int64(g.pick([]int{2, 4, 16, 64, 256, 1024}))
 	c.BufferItems = int64(g.pick([]int{1, 1, 2, 3, 4, 8, 64}))
 	if g.p(pr.bufSmall) {
